@@ -86,6 +86,7 @@ type interp struct {
 	covered map[*ssa.Function]bool
 	sched *scheduler
 	speculating bool
+	atomCache map[int32][]*Term
 }
 
 type methodKey struct {
@@ -1035,7 +1036,11 @@ func (in *interp) callBuiltin(caller *frame, fn *ssa.Builtin, args []value) valu
 			return p.s[:n:n]
 		}
 	}
-	panic(in.unsupported("built-in: " + fn.Name()))
+	who := "?"
+	if caller != nil {
+		who = caller.fn.String()
+	}
+	panic(in.unsupported(fmt.Sprintf("built-in %s (args %T) called from %s", fn.Name(), args[0], who)))
 }
 
 // appendVals implements append(dst, src...), logging in-place writes.
